@@ -9,7 +9,7 @@ COQ_CASE_TYPE = "case"
 COQ_AGREE = "agree"
 COQ_PROP_OK = "prop_ok"
 RULE = ("seeded generator: kind in {time scheduler, step scheduler, periodic save condition}; interval in ticks of 2^-6 s "
-        "(incl. 0); 1-3 callbacks each reading the clock 0-2 times; operation lists of update/register/remove; a scripted "
+        "(incl. 0); 1-3 callbacks each reading the clock 0-2 times; operation lists of update/register/remove, some updates with a callback that raises; a scripted "
         "clock that advances on every single read by amounts clustered around the threshold.  Non-trivial = the trace "
         "contains at least one firing and at least one non-firing update; distinct = different canonical JSON input.")
 TRUSTED = [
@@ -53,7 +53,9 @@ def gen_one(rng):
     ops, live, nxt = [], [c[0] for c in cbs], ncb + 1
     for _ in range(nops):
         r = rng.random()
-        if r < 0.75 or kind == "cond":
+        if kind == "time" and r < 0.12:
+            ops.append(["ur", rng.choice(live + [99])])     # a callback raises during this update (99: none is hit)
+        elif r < 0.75 or kind == "cond":
             ops.append(["u"])
         elif r < 0.88:
             ops.append(["reg", nxt, rng.choice([0, 0, 1])]); live.append(nxt); nxt += 1
@@ -96,6 +98,8 @@ def _cbrec(c):
 def _op(o):
     if o[0] == "u":
         return "OUpdate"
+    if o[0] == "ur":
+        return f"(OUpdateRaise {cn(o[1])})"
     if o[0] == "reg":
         return f"(ORegister {_cbrec([o[1], o[2]])})"
     return f"(ORemove {cn(o[1])})"
@@ -106,6 +110,8 @@ def _ev(e):
         return f"(ERead {cz(e[1])})"
     if e[0] == "c":
         return f"(ECb {cn(e[1])})"
+    if e[0] == "raise":
+        return "ERaise"
     return f"(ERet {cb(e[1])})"
 
 
@@ -151,7 +157,7 @@ def shrink(case):
         return out
     ops = case["ops"]
     for i in range(len(ops)):
-        if ops[i][0] == "u" or ops[i][0] == "reg" and not any(o[0] == "rm" and o[1] == ops[i][1] for o in ops):
+        if ops[i][0] in ("u", "ur") or ops[i][0] == "reg" and not any(o[0] == "rm" and o[1] == ops[i][1] for o in ops):
             c = dict(case); c["ops"] = ops[:i] + ops[i + 1:]; out.append(c)
     if case["calls"] > 1:
         c = dict(case); c["calls"] = case["calls"] - 1; out.append(c)
